@@ -250,17 +250,19 @@ class Sut(object):
             elif k == "batch":
                 data = {}
                 a = op.get("as_str")
-                for s_, ts in op["data"]:
-                    data[self.arg(s_, a)] = [self.arg(x, a) for x in ts]
+                for e in op["data"]:
+                    s_, ts = e[0], e[1]
+                    text_key = a or (len(e) > 2 and e[2])
+                    data[self.arg(s_, text_key)] = [self.arg(x, a) for x in ts]
                 r, order = self._observed(lambda: t.index_batch_crawl(data, yield_frequency=op.get("yf", 50)))
                 named = []
-                for s_, ts in op["data"]:
-                    named.append((s_, True))
-                    named += [(x, False) for x in ts]
+                for e in op["data"]:
+                    named.append((e[0], True))
+                    named += [(x, False) for x in e[1]]
                 n = self._model_pages(named, order, out, k)
-                for s_, ts in op["data"]:
-                    for x in ts:
-                        m.links[(s_, x)] += 1
+                for e in op["data"]:
+                    for x in e[1]:
+                        m.links[(e[0], x)] += 1
                 self._check_new_pages(r, n, out, k)
                 self._bind_report(r, out, k)
             elif k == "create":
@@ -390,6 +392,32 @@ class Sut(object):
                 m.remove_rule(op["anchor"])
             elif k == "reopen":
                 self.reopen()
+            elif k == "touch":
+                l = op["lru"]
+                how = op.get("how", 0)
+                try:
+                    if how == 0:
+                        t.get_webentity_by_prefix(l)
+                    elif how == 1:
+                        w_ = m.we.get(l)
+                        if w_ is not None:
+                            t.paginate_webentity_pages(self.idmap[w_], [l], page_count=2)
+                            t.get_webentity_pages(self.idmap[w_], [l])
+                        else:
+                            t.get_page_links(l)
+                    elif how == 2:
+                        t.retrieve_webentity(l)
+                        t.get_potential_prefix(l)
+                    else:
+                        w_ = m.we.get(l)
+                        if w_ is not None:
+                            t.get_webentity_child_webentities(self.idmap[w_], [l])
+                            t.get_webentity_pagelinks(self.idmap[w_], [l], include_outbound=True)
+                        else:
+                            t.get_webentity_by_prefix(l)
+                except TraphException:
+                    pass
+                self.stats["touch_reads_between_writes"] += 1
             elif k == "bystander":
                 cfg2 = {"backend": "memory" if op.get("memory", True) else "file"}
                 folder = None if op.get("memory", True) else tempfile.mkdtemp(prefix="vtby", dir=self.scratch)
@@ -442,7 +470,7 @@ class Sut(object):
                 "batch": ["C01", "C03"], "create": ["C04"], "delete": ["C04"], "addp": ["C04"],
                 "rmp": ["C04"], "mvp": ["C04"], "rule": ["C06"], "rmrule": ["C06"],
                 "reopen": ["C11"], "clear": ["C11"], "bad_delete": ["C04"], "bad_rmp": ["C04"], "bad_mvp": ["C04"],
-                "overwrite_open": ["C11"], "bystander": ["C12"], "addp_foreign": ["C04"],
+                "overwrite_open": ["C11"], "bystander": ["C12"], "addp_foreign": ["C04"], "touch": ["C14"],
             }[k]
             out.append(D(props, "exception-in-write", op=k, exc=type(e).__name__, msg=str(e)[:200],
                          tb=traceback.format_exc()[-600:], backend=self.cfg["backend"]))
